@@ -59,10 +59,22 @@ def run_cases(ctx, cases, prefix, canary=None, only=None):
             continue
 
         bad_paths = []
+        loop_skipped = []
 
         def thunk(case=case):
             try:
                 body(case)
+            except G.LoopBroken as e:
+                # the loop contract is not re-established by the current body: no certificate; the verdict comes from the real
+                # code run with floats at small sizes of this path against the contract (bounded, labelled)
+                nm = "generic/%s" % case.name
+                pr = _probe(ctx, case, list(vc.pc)[:2] if False else [c for c in vc.pc if "loop" not in str(c)])
+                if pr and pr.get("mismatch"):
+                    vc._record(nm + "/loop contract not re-established: real code at small sizes vs the contract (bounded)", "violated",
+                               "%s; real code %r, contract %r at element %s for sizes %s" % (e, pr["code_value"], pr["contract_value"], pr["element"], pr["sizes"]),
+                               pr, 0.0, "loop contract + concrete run (bounded)")
+                else:
+                    loop_skipped.append((case.name, "loop contract not re-established (%s); the real code agrees with the contract at sizes %s" % (e, (pr or {}).get("sizes"))))
             except Unmodelled as e:
                 bad_paths.append((list(vc.pc), str(e)[:200]))
 
@@ -140,6 +152,9 @@ def run_cases(ctx, cases, prefix, canary=None, only=None):
                     ctx.generic_skipped = getattr(ctx, "generic_skipped", []) + [(case.name, "not decided by normal form: %s" % str(why)[:160])]
                     del vc.results[k]
             done.append((case.name, npaths))
+            if loop_skipped:
+                ctx.generic_skipped = getattr(ctx, "generic_skipped", []) + loop_skipped[:1]
+                vc.results = {k: v for k, v in vc.results.items() if not k.startswith(pre) or any(x[0] == "violated" for x in v)}
             if bad_paths:
                 raise Unmodelled(bad_paths[0][1])
         except Unmodelled as e:
